@@ -121,7 +121,11 @@ pub fn sweep(s: &mut Session, src_file: &str, fn_names: &[String]) -> Value {
                         let has = rows.iter().any(|r| f.ranges.iter().any(|(lo, hi)| *lo <= r.addr && r.addr < *hi) && pe.map(|p| r.addr >= p).unwrap_or(true));
                         let innermost = rows.iter().any(|r| dref.func_at(r.addr).map(|g| g.offset == f.offset && g.unit == f.unit).unwrap_or(false));
                         if has && innermost && !got_set.iter().any(|a| f.ranges.iter().any(|(lo, hi)| *lo <= *a && *a < *hi)) {
-                            findings.push(json!({"sig": "C04:line->addr:instance-without-breakpoint", "detail": format!("break {tpl}:{line}: `{}` at {:x?} contains statements of line {eff_line} but got no breakpoint (chosen: {:x?})", f.name, f.ranges, got_set)}));
+                            // classify: the debugger keeps only rows with the column of the first row it found
+                            let chosen_cols: BTreeSet<u64> = rows.iter().filter(|r| got_set.contains(&r.addr)).map(|r| r.col).collect();
+                            let missed_cols: BTreeSet<u64> = rows.iter().filter(|r| f.ranges.iter().any(|(lo, hi)| *lo <= r.addr && r.addr < *hi)).map(|r| r.col).collect();
+                            let class = if chosen_cols.is_disjoint(&missed_cols) { ":rows-of-that-instance-have-another-column" } else { "" };
+                            findings.push(json!({"sig": format!("C04:line->addr:instance-without-breakpoint{class}"), "detail": format!("break {tpl}:{line}: `{}` at {:x?} contains statements of line {eff_line} but got no breakpoint (chosen: {:x?})", f.name, f.ranges, got_set)}));
                         }
                     }
                     if rows.is_empty() {
